@@ -114,10 +114,12 @@ def verify_unit(name, tier='quick', seed=0, threads=8):
     r.labels = sorted(set(re.findall(r'/\*@L:([^*]+)\*/', text)))
     r.clauses = sum(1 for l in text.split('\n') if l.strip() and _in_clause_line(l))
     gm = verus.GenMap(text)
-    rlimit = getattr(importlib.import_module('units.' + name.lower().replace('-', '_')), 'RLIMIT', None)
+    umod = importlib.import_module('units.' + name.lower().replace('-', '_'))
+    rlimit = getattr(umod, 'RLIMIT', None)
+    multi = getattr(umod, 'MULTIPLE_ERRORS', 4)
     extra = list(u.verus_args)
     with cf.ThreadPoolExecutor(2) as ex:
-        fut_main = ex.submit(verus.run, path, rlimit, threads, 4, seed if tier == 'thorough' and seed else None, extra)
+        fut_main = ex.submit(verus.run, path, rlimit, threads, multi, seed if tier == 'thorough' and seed else None, extra)
         fut_sent = ex.submit(verus.run, spath, rlimit, max(2, threads // 2), 1, None, extra) if us.sentinels else None
         vr = fut_main.result()
         sr = fut_sent.result() if fut_sent else None
@@ -126,7 +128,7 @@ def verify_unit(name, tier='quick', seed=0, threads=8):
     fails, tool, rl = verus.classify(vr, gm)
     if rl and not tool:
         # retry once with 4x rlimit
-        vr2 = verus.run(path, (rlimit or 10) * 4, threads, 4, None, extra)
+        vr2 = verus.run(path, (rlimit or 10) * 4, threads, multi, None, extra)
         f2, t2, rl2 = verus.classify(vr2, gm)
         if not t2:
             vr, res, fails, tool, rl = vr2, vr2['json'], f2, t2, rl2
